@@ -88,6 +88,13 @@ fn main() {
     // hermetic working directory: relative paths and `--source git` without -C must not see /verif
     let _ = std::env::set_current_dir("/");
     runner::install_panic_hook();
+    // C13 in-process: what `-v` / RUST_LOG=trace would do in the binary.  `tracing` evaluates
+    // the arguments of debug!/trace! only when a subscriber enables the call site, so without
+    // one a panic hidden in a log argument is unreachable from the library calls.  Everything
+    // is formatted and thrown away.
+    if id == "C13" || std::env::var("VERIF_TRACE").is_ok() {
+        let _ = tracing_subscriber::fmt().with_writer(std::io::sink).with_max_level(tracing::Level::TRACE).try_init();
+    }
     // global watchdog: a hang is "inconclusive" (exit 2), never a violation
     let limit = std::env::var("VERIF_WATCHDOG_S").ok().and_then(|s| s.parse().ok()).unwrap_or(tier.pick(1500u64, 6 * 3600));
     std::thread::spawn(move || {
